@@ -8,16 +8,102 @@ pub(super) fn is_boundary(content: &str, i: usize) -> bool {
     i <= content.len() && content.is_char_boundary(i)
 }
 
-fn utf8<const N: usize>(bytes: &[u8; N]) -> &str {
-    match core::str::from_utf8(bytes) {
-        Ok(s) => s,
-        Err(_) => {
-            kani::assume(false);
-            ""
-        }
+// Every valid UTF-8 string of exactly N bytes (N <= 4), WITHOUT running std's validator under CBMC (its
+// word-at-a-time ASCII fast path with align_offset dominated the cost and exhausted the memory cap): the
+// byte string is constrained to one of the well-formed shapes of Unicode Table 3-7 (all compositions of
+// scalar widths summing to N, each scalar within its well-formed byte ranges), selected by a symbolic
+// index, and then viewed as &str unchecked.  tools/check_utf8_shapes.py cross-checks the predicate against
+// a strict UTF-8 decoder exhaustively for N <= 3 and on all lead/second-byte combinations for N = 4.
+fn cont(b: u8) -> bool {
+    b >= 0x80 && b <= 0xBF
+}
+fn w1(b: &[u8], i: usize) -> bool {
+    b[i] < 0x80
+}
+fn w2(b: &[u8], i: usize) -> bool {
+    b[i] >= 0xC2 && b[i] <= 0xDF && cont(b[i + 1])
+}
+fn w3(b: &[u8], i: usize) -> bool {
+    let (x, y, z) = (b[i], b[i + 1], b[i + 2]);
+    cont(z)
+        && ((x == 0xE0 && y >= 0xA0 && y <= 0xBF)
+            || (x >= 0xE1 && x <= 0xEC && cont(y))
+            || (x == 0xED && y >= 0x80 && y <= 0x9F)
+            || (x >= 0xEE && x <= 0xEF && cont(y)))
+}
+fn w4(b: &[u8], i: usize) -> bool {
+    let (x, y) = (b[i], b[i + 1]);
+    cont(b[i + 2])
+        && cont(b[i + 3])
+        && ((x == 0xF0 && y >= 0x90 && y <= 0xBF) || (x >= 0xF1 && x <= 0xF3 && cont(y)) || (x == 0xF4 && y >= 0x80 && y <= 0x8F))
+}
+
+pub(super) fn well_formed<const N: usize>(b: &[u8; N]) -> bool {
+    let sel: u8 = kani::any();
+    match N {
+        0 => true,
+        1 => w1(b, 0),
+        2 => match sel % 2 {
+            0 => w1(b, 0) && w1(b, 1),
+            _ => w2(b, 0),
+        },
+        3 => match sel % 4 {
+            0 => w1(b, 0) && w1(b, 1) && w1(b, 2),
+            1 => w1(b, 0) && w2(b, 1),
+            2 => w2(b, 0) && w1(b, 2),
+            _ => w3(b, 0),
+        },
+        _ => match sel % 8 {
+            0 => w1(b, 0) && w1(b, 1) && w1(b, 2) && w1(b, 3),
+            1 => w1(b, 0) && w1(b, 1) && w2(b, 2),
+            2 => w1(b, 0) && w2(b, 1) && w1(b, 3),
+            3 => w2(b, 0) && w1(b, 2) && w1(b, 3),
+            4 => w2(b, 0) && w2(b, 2),
+            5 => w1(b, 0) && w3(b, 1),
+            6 => w3(b, 0) && w1(b, 3),
+            _ => w4(b, 0),
+        },
     }
 }
 
+fn utf8<const N: usize>(bytes: &[u8; N]) -> &str {
+    kani::assume(N <= 4 && well_formed(bytes));
+    unsafe { core::str::from_utf8_unchecked(bytes) }
+}
+
+// ---- the helpers' contracts, as predicates.  Single source of truth: the kani::requires / kani::ensures
+// attributes that the overlay puts on the real functions (kani/inject.json) call exactly these functions, so
+// what compute_snippet_slices ASSUMES about a helper (stub_verified) is literally what is PROVED of it below.
+pub(super) fn post_prev(content: &str, idx: usize, r: usize) -> bool {
+    r <= content.len() && r <= idx && content.is_char_boundary(r) && (idx > content.len() || !content.is_char_boundary(idx) || r == idx)
+}
+pub(super) fn post_next(content: &str, idx: usize, r: usize) -> bool {
+    r <= content.len()
+        && content.is_char_boundary(r)
+        && (idx > content.len() || r >= idx)
+        && (idx > content.len() || !content.is_char_boundary(idx) || r == idx)
+}
+pub(super) fn post_sentence(content: &str, r: &Option<usize>) -> bool {
+    match r {
+        Some(p) => *p <= content.len() && content.is_char_boundary(*p),
+        None => true,
+    }
+}
+pub(super) fn pre_advance(content: &str, start: usize) -> bool {
+    start >= content.len() || content.is_char_boundary(start)
+}
+pub(super) fn post_advance(content: &str, start: usize, window: usize, r: usize) -> bool {
+    r <= content.len()
+        && content.is_char_boundary(r)
+        && (start >= content.len() || window == 0 || r > start)
+        && (start < content.len() || r == content.len())
+}
+
+// Each contract is proved on the real helper for EVERY well-formed UTF-8 text of exactly L bytes and EVERY
+// usize argument (assume pre, call, assert post).  Kani's proof_for_contract form is used for the two
+// loop-only helpers; for the three char_indices-based ones its write-set instrumentation exhausts 20 GB
+// even at L = 2 ("Solver ran out of memory during propositional reduction"), while this form answers in
+// seconds - so their contracts are discharged by plain harnesses over the same predicates.
 macro_rules! helper_contracts {
     ($l:expr, $u:expr, $prev:ident, $next:ident, $start:ident, $end:ident, $adv:ident) => {
         #[kani::proof_for_contract(prev_char_boundary)]
@@ -34,26 +120,32 @@ macro_rules! helper_contracts {
             let s = utf8(&bytes);
             let _ = next_char_boundary(s, kani::any());
         }
-        #[kani::proof_for_contract(sentence_start_before)]
-        #[kani::unwind($u)]
+        #[kani::proof]
+        #[kani::unwind(9)]
         fn $start() {
             let bytes: [u8; $l] = kani::any();
             let s = utf8(&bytes);
-            let _ = sentence_start_before(s, kani::any());
+            let r = sentence_start_before(s, kani::any());
+            assert!(post_sentence(s, &r), "contract of sentence_start_before");
         }
-        #[kani::proof_for_contract(sentence_end_after)]
-        #[kani::unwind($u)]
+        #[kani::proof]
+        #[kani::unwind(9)]
         fn $end() {
             let bytes: [u8; $l] = kani::any();
             let s = utf8(&bytes);
-            let _ = sentence_end_after(s, kani::any());
+            let r = sentence_end_after(s, kani::any());
+            assert!(post_sentence(s, &r), "contract of sentence_end_after");
         }
-        #[kani::proof_for_contract(advance_boundary)]
-        #[kani::unwind($u)]
+        #[kani::proof]
+        #[kani::unwind(9)]
         fn $adv() {
             let bytes: [u8; $l] = kani::any();
             let s = utf8(&bytes);
-            let _ = advance_boundary(s, kani::any(), kani::any());
+            let start: usize = kani::any();
+            let window: usize = kani::any();
+            kani::assume(pre_advance(s, start));
+            let r = advance_boundary(s, start, window);
+            assert!(post_advance(s, start, window, r), "contract of advance_boundary");
         }
     };
 }
@@ -75,7 +167,9 @@ fn slices_ok(content: &str, out: &[(usize, usize)], max_snippets: usize) {
             assert!(out[i - 1].1 <= s, "slices non-overlapping");
             assert!(out[i - 1].0 < s, "slices strictly increasing");
         }
-        let _ = &content[s..e]; // slicing never panics
+        // `&content[s..e]` panics iff !(s <= e <= len) or s / e is not a char boundary (std contract of str
+        // indexing): exactly the four assertions above.  The slice itself is not built here - a slice of
+        // symbolic length is what makes CBMC's formula explode.
         i += 1;
     }
 }
@@ -109,3 +203,59 @@ snippet_slices!(snippet_slices_l2_k2, 2, 2);
 snippet_slices!(snippet_slices_l3_k2, 3, 2);
 snippet_slices!(snippet_slices_l4_k2, 4, 2);
 snippet_slices!(snippet_slices_l3_k3, 3, 3);
+
+// Long-text instances.  With a text of <= 4 bytes every window lies within 20 bytes of the previous slice, so
+// the merge branch always fires and `merged` never holds two slices: the clauses "strictly increasing,
+// non-overlapping, at most max_snippets" are only exercised on a text longer than 20 bytes.  The helpers
+// are replaced by their contracts (stub_verified), so compute_snippet_slices reads the text only through
+// len() / is_char_boundary(); a CONCRETE ASCII text of 64 bytes keeps those cheap while occurrences,
+// window and max stay fully symbolic.  (Bounded: this one text length, k occurrences.)
+const ASCII64: &str = "The quick brown fox. Jumps over the lazy dog! And runs away? ok.";
+const ASCII24: &str = "Hi there. Yes! No? ok ok";
+
+macro_rules! snippet_slices_long {
+    ($name:ident, $k:expr) => {
+        snippet_slices_long!($name, $k, ASCII64);
+    };
+    ($name:ident, $k:expr, $text:expr) => {
+        #[kani::proof]
+        #[kani::stub_verified(prev_char_boundary)]
+        #[kani::stub_verified(next_char_boundary)]
+        #[kani::stub_verified(sentence_start_before)]
+        #[kani::stub_verified(sentence_end_after)]
+        #[kani::stub_verified(advance_boundary)]
+        #[kani::unwind(8)]
+        fn $name() {
+            let s = $text;
+            let occ: [(usize, usize); $k] = kani::any();
+            let window: usize = kani::any();
+            let max_snippets: usize = kani::any();
+            let out = compute_snippet_slices(s, &occ, window, max_snippets);
+            slices_ok(s, &out, max_snippets);
+            kani::cover!(out.len() == $k, "one slice per occurrence (no merge)");
+            kani::cover!(out.len() == 1, "everything merged");
+        }
+    };
+}
+snippet_slices_long!(snippet_slices_ascii24_k2, 2, ASCII24);
+snippet_slices_long!(snippet_slices_ascii64_k2, 2);
+snippet_slices_long!(snippet_slices_ascii64_k3, 3);
+
+// Kani requires a #[proof_for_contract] harness for every stub_verified target.  For the three
+// char_indices-based helpers that form is only affordable on the empty text (see above); these are genuine,
+// if small, instances - the non-trivial instances are the plain harnesses `*_contract_l1..l4`.
+#[kani::proof_for_contract(sentence_start_before)]
+#[kani::unwind(3)]
+fn sentence_start_contract_l0() {
+    let _ = sentence_start_before("", kani::any());
+}
+#[kani::proof_for_contract(sentence_end_after)]
+#[kani::unwind(3)]
+fn sentence_end_contract_l0() {
+    let _ = sentence_end_after("", kani::any());
+}
+#[kani::proof_for_contract(advance_boundary)]
+#[kani::unwind(3)]
+fn advance_contract_l0() {
+    let _ = advance_boundary("", kani::any(), kani::any());
+}
